@@ -42,14 +42,14 @@ func tierFromArgs() string {
 
 func linCases(t string) int {
 	if t == "thorough" {
-		return 8000
+		return 20000
 	}
 	return 1200
 }
 
 func raceCases(t string) int {
 	if t == "thorough" {
-		return 800
+		return 2000
 	}
 	return 150
 }
@@ -73,7 +73,7 @@ func Spec() *run.Spec {
 			"a history that does not return (deadlock) is reported by the framework's stall watchdog as a violation of this property",
 			"schedules: only those the Go runtime produced (GOMAXPROCS 2,4,8,16 in the plain build; 2,4,16 under -race)",
 		},
-		MinNontrivial: map[string]int{"quick": 400, "thorough": 2000},
+		MinNontrivial: map[string]int{"quick": 400, "thorough": 5000},
 		MinObserved: map[string]int64{
 			"histories_with_overlap":   total/2 + 1, // DESIGN §6: overlapping operations in > 50 % of the histories
 			"porcupine_ok":             total * 8 / 10,
@@ -547,6 +547,11 @@ const (
 // its stack is parked in a mutex acquisition, in two goroutine dumps taken deadlockRecheck
 // apart, and the logical clock did not move in between. Timers only decide WHEN to look.
 func waitOrDeadlock(wg *sync.WaitGroup) *deadlock {
+	if os.Getenv("C13_NO_DEADLOCK_DETECTOR") != "" {
+		// validation knob: leave a deadlock to the framework's stall watchdog (StallViolation)
+		wg.Wait()
+		return nil
+	}
 	done := make(chan struct{})
 	go func() { wg.Wait(); close(done) }()
 	last := atomic.LoadInt64(&clock)
